@@ -8,3 +8,8 @@ From AsconV Require Export Model.Clim.
 Definition x_main_crypt := main_crypt.
 Definition x_main_generate := main_generate.
 Definition x_main_sum := main_sum.
+(* main() of asconcrypt (options parsed; direction detection, output names, typed passwords, "-",
+   close(2) results of output descriptors), asconcrypt -g with the close result, asconsum without FILE arguments *)
+Definition x_main_args := main_args.
+Definition x_main_generate_c := main_generate_c.
+Definition x_main_sum_argv := main_sum_argv.
